@@ -478,3 +478,159 @@ M('c11-twin-check-inline', 'C11', 'silent',
     def _raise_if_error(self, reply):
         if reply.is_error():
             raise SmtpRelayError.factory(reply)''', 1))
+
+# ---------------------------------------------------------------- C01
+Q = 'slimta/queue/__init__.py'
+DS = 'slimta/diskstorage/__init__.py'
+RS = 'slimta/redisstorage/__init__.py'
+M('c01-transient-arm-removes', 'C01', 'fire:R1.1',
+  (Q, '''        except TransientRelayError as e:
+            self._pool_spawn('store', self._retry_later, id, envelope, e.reply)''',
+   '''        except TransientRelayError as e:
+            self._remove(id)''', 1))
+M('c01-catchall-arm-dropped', 'C01', 'fire:R1.1',
+  (Q, '''        except Exception as e:
+            logging.log_exception(__name__)
+            reply = Reply('450', '4.0.0 Unhandled delivery error: '+str(e))
+            self._pool_spawn('store', self._retry_later, id, envelope, reply)
+            raise
+''', '', 1))
+M('c01-catchall-swallows', 'C01', 'fire:R1.1',
+  (Q, '''            reply = Reply('450', '4.0.0 Unhandled delivery error: '+str(e))
+            self._pool_spawn('store', self._retry_later, id, envelope, reply)
+            raise''', '''            raise''', 1))
+M('c01-sequence-result-removed', 'C01', 'fire:R1.1',
+  (Q, '''            elif isinstance(results, collections.abc.Sequence):
+                results = dict(zip(envelope.recipients, results))
+                self._handle_partial_relay(id, envelope, attempts, results)
+''', '', 1))
+M('c01-perm-arm-retries-and-fails', 'C01', 'fire:R1.1',
+  (Q, '''        except PermanentRelayError as e:
+            self._perm_fail(id, envelope, e.reply)''',
+   '''        except PermanentRelayError as e:
+            self._perm_fail(id, envelope, e.reply)
+            self._pool_spawn('store', self._retry_later, id, envelope, e.reply)''', 1))
+M('c01-partial-removes-with-tempfails', 'C01', 'fire:R1.2',
+  (Q, '''            self._retry_later(id, fail_env, replies, delivered)
+        else:
+            self.store.remove(id)''', '''            self._retry_later(id, fail_env, replies, delivered)
+        self.store.remove(id)''', 1))
+M('c01-remove-from-dequeue', 'C01', 'fire:R1.2',
+  (Q, '''        except KeyError:
+            return
+        if id not in self.active_ids:''', '''        except KeyError:
+            return
+        if not envelope.recipients:
+            self._remove(id)
+            return
+        if id not in self.active_ids:''', 1))
+M('c01-exhaustion-no-bounce', 'C01', 'fire:R1.3',
+  (Q, '''            for reply, group_env in self._split_by_reply(envelope, replies):
+                reply.message += ' (Too many retries)'
+                self._perm_fail(None, group_env, reply)
+            self._remove(id)
+            return False''', '''            self._remove(id)
+            return False''', 1))
+M('c01-retry-not-rescheduled', 'C01', 'fire:R1.3',
+  (Q, '''                self.active_ids.discard(id)
+                self._add_queued((when, id))
+            return True''', '''                self.active_ids.discard(id)
+            return True''', 1))
+M('c01-retry-removes-anyway', 'C01', 'fire:R1.3',
+  (Q, '''                self._add_queued((when, id))
+            return True''', '''                self._add_queued((when, id))
+            self._remove(id)
+            return True''', 1))
+M('c01-blackhole-returns-error', 'C01', 'fire:R1.4',
+  ('slimta/relay/blackhole.py', '''        return Reply('250', msg)''',
+   '''        from slimta.relay import TransientRelayError
+        if attempts > 3:
+            return TransientRelayError(msg)
+        return Reply('250', msg)''', 1))
+M('c01-transient-marked-delivered', 'C01', 'fire:R1.7',
+  (Q, '''            elif isinstance(rcpt_res, TransientRelayError):
+                tempfails.append((rcpt, rcpt_res.reply))''',
+   '''            elif isinstance(rcpt_res, TransientRelayError):
+                delivered.add(envelope.recipients.index(rcpt))
+                tempfails.append((rcpt, rcpt_res.reply))''', 1))
+M('c01-everything-else-delivered', 'C01', 'fire:R1.7',
+  (Q, '''            if rcpt_res is None or isinstance(rcpt_res, Reply):
+                delivered.add(envelope.recipients.index(rcpt))''',
+   '''            if not isinstance(rcpt_res, Exception):
+                delivered.add(envelope.recipients.index(rcpt))''', 1))
+M('c01-twin-dispatch-early-returns', 'C01', 'silent',
+  (Q, '''            if isinstance(results, collections.abc.Mapping):
+                self._handle_partial_relay(id, envelope, attempts, results)
+            elif isinstance(results, collections.abc.Sequence):
+                results = dict(zip(envelope.recipients, results))
+                self._handle_partial_relay(id, envelope, attempts, results)
+            else:
+                self._remove(id)''', '''            if isinstance(results, collections.abc.Mapping):
+                self._handle_partial_relay(id, envelope, attempts, results)
+                return
+            if isinstance(results, collections.abc.Sequence):
+                results = dict(zip(envelope.recipients, results))
+                self._handle_partial_relay(id, envelope, attempts, results)
+                return
+            self._remove(id)''', 1))
+
+# ---------------------------------------------------------------- C03
+M('c03-enqueue-no-inflight-test', 'C03', 'fire:R3.1',
+  (Q, '''                if self.relay and id not in self.active_ids:''',
+   '''                if self.relay:''', 1))
+M('c03-dequeue-no-inflight-test', 'C03', 'fire:R3.1',
+  (Q, '''        if id not in self.active_ids:
+            self.active_ids.add(id)
+            self._pool_spawn('relay', self._attempt, id, envelope, attempts)''',
+   '''        self.active_ids.add(id)
+        self._pool_spawn('relay', self._attempt, id, envelope, attempts)''', 1))
+M('c03-dequeue-get-between', 'C03', 'fire:R3.1',
+  (Q, '''        try:
+            envelope, attempts = self.store.get(id)
+        except KeyError:
+            return
+        if id not in self.active_ids:
+            self.active_ids.add(id)''', '''        if id not in self.active_ids:
+            try:
+                envelope, attempts = self.store.get(id)
+            except KeyError:
+                return
+            self.active_ids.add(id)''', 1))
+M('c03-dequeue-mark-missing', 'C03', 'fire:R3.1',
+  (Q, '''        if id not in self.active_ids:
+            self.active_ids.add(id)
+            self._pool_spawn('relay', self._attempt, id, envelope, attempts)''',
+   '''        if id not in self.active_ids:
+            self._pool_spawn('relay', self._attempt, id, envelope, attempts)''', 1))
+M('c03-add-queued-ignores-active', 'C03', 'fire:R3.2',
+  (Q, '''        if id not in self.queued_ids | self.active_ids:''',
+   '''        if id not in self.queued_ids:''', 1))
+M('c03-load-appends-directly', 'C03', 'fire:R3.2',
+  (Q, '''        for entry in self.store.load():
+            self._add_queued(entry)''', '''        for entry in self.store.load():
+            self.queued.append(entry)''', 1))
+M('c03-marks-after-requeue', 'C03', 'fire:R3.3',
+  (Q, '''            try:
+                if delivered is not None:
+                    # Persist the settled recipients before the message can
+                    # be dequeued for its next attempt.
+                    self.store.set_recipients_delivered(id, delivered)
+            finally:
+                self.active_ids.discard(id)
+                self._add_queued((when, id))''', '''            self.active_ids.discard(id)
+            self._add_queued((when, id))
+            if delivered is not None:
+                self.store.set_recipients_delivered(id, delivered)''', 1))
+M('c03-disk-get-forgets-marks', 'C03', 'fire:R3.5',
+  (DS, '''        delivered_rcpts = meta.get('delivered_indexes', [])
+        self._remove_delivered_rcpts(env, delivered_rcpts)
+        return env, meta['attempts']''', '''        return env, meta['attempts']''', 1))
+M('c03-redis-get-forgets-marks', 'C03', 'fire:R3.5',
+  (RS, '''            self._remove_delivered_rcpts(envelope, delivered_indexes)''',
+   '''            pass''', 1))
+M('c03-ascending-deletion', 'C03', 'fire:R3.5',
+  (Q, '''        for index in sorted(rcpt_indexes, reverse=True):''',
+   '''        for index in sorted(rcpt_indexes):''', 1))
+M('c03-twin-separate-membership-tests', 'C03', 'silent',
+  (Q, '''        if id not in self.queued_ids | self.active_ids:''',
+   '''        if id not in self.queued_ids and id not in self.active_ids:''', 1))
